@@ -27,9 +27,12 @@ from streamflow.workflow.step import (CombinatorStep, DeployStep, ExecuteStep, G
 from streamflow.workflow.token import IterationTerminationToken, JobToken, ListToken, ObjectToken, TerminationToken
 
 from sfv.framework import Ctx, Property
+from sfv.rt.hexs import hx
 from sfv.rt.loop import run_controlled
 from sfv.rt.sfctx import make_context
 from sfv.translate import persist
+
+DRIVER = "Drivers/C08.lean"
 
 SENT = "☠MUTATED"
 STRS = ["a", "step", "x y", "é", "日本", "", "a/b", "0", "$(inputs.x)", "q\"uote", "tab\tx", "😀"]
@@ -371,6 +374,57 @@ def rewire(rng, wf, ports):
     return changed + 1
 
 
+def _conns(d):
+    return ",".join(sorted(f"{hx(k)}={hx(v)}" for k, v in d.items())) or "-"
+
+
+def show_wf(w):
+    """the structure the record model (`SFV/Model/WorkflowStore.lean`, driver `Drivers/C08.lean`) prints for a workflow"""
+    ps = sorted(f"{hx(n)}:{hx(type(p).__name__)}" for n, p in w.ports.items())
+    ss = sorted(f"{hx(n)}:{hx(type(st).__name__)}:{st.status.value}:{_conns(st.input_ports)}:{_conns(st.output_ports)}"
+                for n, st in w.steps.items())
+    return ",".join(ps) + "|" + ";".join(ss)
+
+
+class ModelTrace:
+    """replays on the record model what is done to the real workflow: only what is new since the last call is sent"""
+
+    def __init__(self, wf):
+        self.lines, self.expect = [f"wnew {hx(wf.name)}"], ["ok"]
+        self.ports, self.steps, self.conns = set(), set(), set()
+
+    def delta(self, wf):
+        for n, p in wf.ports.items():
+            if n not in self.ports:
+                self.ports.add(n)
+                self.lines.append(f"wport {hx(n)} {hx(type(p).__name__)}")
+                self.expect.append("ok")
+        for n, st in wf.steps.items():
+            if n not in self.steps:
+                self.steps.add(n)
+                self.lines.append(f"wstep {hx(n)} {hx(type(st).__name__)} {st.status.value}")
+                self.expect.append("ok")
+            for cmd, d in (("win", st.input_ports), ("wout", st.output_ports)):
+                for dep, port in d.items():
+                    if (n, cmd, dep, port) not in self.conns:
+                        self.conns.add((n, cmd, dep, port))
+                        self.lines.append(f"{cmd} {hx(n)} {hx(dep)} {hx(port)}")
+                        self.expect.append("ok")
+
+    def save(self, wf, first):
+        self.delta(wf)
+        # the hypotheses of `load_save_workflow`, evaluated independently here
+        wf_ok = all(p in wf.ports for st in wf.steps.values() for p in [*st.input_ports.values(), *st.output_ports.values()]) and all(
+            len(set([*st.input_ports.values(), *st.output_ports.values()])) == len(st.input_ports) + len(st.output_ports)
+            for st in wf.steps.values())
+        self.lines.append("wsave")
+        self.expect.append(f"ok=1 fresh={int(first)} wf={int(wf_ok)}")
+
+    def loaded(self, w, copy):
+        self.lines += ["wload", "wcopy"]
+        self.expect += [show_wf(w), "noids|" + show_wf(copy)]
+
+
 async def one_case(seed, context):
     try:
         return await _one_case(seed, context)
@@ -385,11 +439,14 @@ async def _one_case(seed, context):
     rng = random.Random(seed)
     wf, ports = build_workflow(rng, context)
     db = context.database
+    trace = ModelTrace(wf)
+    trace.save(wf, True)
     await wf.save(db)
     # multi-save history: the saved workflow is rewired and saved again (once or twice) before it is loaded
     resaves = 0
     for _ in range(rng.choice([0, 1, 1, 2])):
         rewire(rng, wf, ports)
+        trace.save(wf, False)
         await wf.save(db)
         resaves += 1
     tokens = [gen_token(rng) for _ in range(rng.randint(1, 4))]
@@ -457,6 +514,8 @@ async def _one_case(seed, context):
     if w4.persistent_id is not None or any(s.persistent_id is not None for s in w4.steps.values()) or any(
             p.persistent_id is not None for p in w4.ports.values()):
         res["diffs"].append(("WorkflowBuilder(deep_copy=True)", "persistent_id", "a copied entity kept a persistent id"))
+    trace.loaded(w3, w4)
+    res["model"] = (trace.lines, trace.expect)
     return res
 
 
@@ -490,7 +549,8 @@ def first_diff(a, b, path="$"):
 class C08(Property):
     pid = "C08"
     title = "Saving then loading a workflow reproduces it exactly"
-    lean_targets = ["SFV.Props.C08"]
+    lean_targets = ["SFV.Props.C08", "SFV.Model.Proto"]
+    drivers = [DRIVER]
     props_files = ["SFV/Props/C08.lean"]
     drivers = []
     translators = [persist.generate]
@@ -517,12 +577,15 @@ class C08(Property):
                  "recursive value type; structural differential check on random workflow graphs against a real database")
     level_text = ("grade B: generated table of the 60 `_save_additional_params`/`_load` pairs proved closed (every key read is saved, "
                   "through inheritance); token values (plain/list/object, any depth, tags, recoverable flags) proved to round-trip, and "
-                  "earlier loads proved stable under later saves; dependency rows proved complete over save / rewire / save histories "
+                  "earlier loads proved stable under later saves; whole-workflow `load (save w) = w` and the id-free builder copy proved on a "
+                  "record model of the four tables (ports, steps, params with port references, dependency rows) compared with the "
+                  "real save/load on every generated case; dependency rows proved complete over save / rewire / save histories "
                   "(shape of `Step.save` read from the source); whole-workflow round trip (incl. re-saves after rewiring and "
                   "concurrently saved values with a shared child), independence of two loads and the "
                   "deep-copy builder checked on random workflow graphs with the real classes")
-    level_note = ("Lean kernel, axioms within {propext, Classical.choice, Quot.sound}; the entity-level round trip `load (save e) = e` "
-                  "is not proved as a theorem (only its key-table obligation and the token part)")
+    level_note = ("Lean kernel, axioms within {propext, Classical.choice, Quot.sound}; the whole-workflow theorem treats parameter "
+                  "values other than port references as opaque (their keys are the table obligation); independence of two loads is "
+                  "sampled, not proved")
     assumptions = ["entities are built through their constructors with JSON-compatible parameter values"]
     quick_budget_s = 480          # real time (threads, database): generous under machine load
     min_nontrivial = 15
@@ -550,6 +613,20 @@ class C08(Property):
             gc.enable()
         if len(results) < min(n, 15):
             ctx.extra["incomplete"] = True
+        lines, expect, owner = [], [], []
+        for r in results:
+            if "model" in r:
+                lines += r["model"][0]
+                expect += r["model"][1]
+                owner += [r["seed"]] * len(r["model"][0])
+        got = ctx.lean(DRIVER, lines)
+        bad = set()
+        for ln, gl, e, sd in zip(lines, got, expect, owner):
+            if ln == "wsave":
+                ctx.count("hypotheses:" + e)
+            if gl != e and sd not in bad:
+                bad.add(sd)
+                ctx.disagree("record model vs Workflow.save/load", f"workflow seed {sd}, `{ln}`: code {e[:300]!r}, Lean model {gl[:300]!r}", {"seed": sd})
         for r in results:
             ctx.case({"seed": r["seed"], "steps": r["steps"], "mutations": r.get("mutations")},
                      ("wf", r["seed"]) if len(r["steps"]) >= 3 else None, "workflow")
